@@ -9,7 +9,7 @@ EXTENDS Getopt, TLC, Json
 CONSTANTS MaxLen,        \* longest argument list
           PoolSel,       \* "full": all lists up to MaxLen over Pool; "small"/"tiny": lists of exactly
                          \* MaxLen over SmallPool/TinyPool; "extra": lists up to MaxLen over ExtraPool
-          SpecLo, SpecHi \* range of spec-set numbers handled by this run
+          SpecNums       \* the spec-set numbers handled by this run
 VARIABLES cfg, sn, args, st, prev, roles
 vars == <<cfg, sn, args, st, prev, roles>>
 
@@ -53,7 +53,7 @@ ExtraPool == { <<D, D, E, x>>, <<D, D, E>>, <<D, E, x>>, <<D, BAD>>, <<D, a, BAD
 Cfgs == [dd : BOOLEAN, bsd : BOOLEAN, lo : BOOLEAN]
 
 Init == /\ cfg \in Cfgs
-        /\ sn \in SpecLo..SpecHi
+        /\ sn \in SpecNums
         /\ args = <<>>
         /\ st = Init0
         /\ prev = Init0
@@ -64,9 +64,10 @@ Tokens == CASE PoolSel = "full" -> Pool [] PoolSel = "small" -> SmallPool
 
 Next == /\ Len(args) < MaxLen
         /\ \E tok \in Tokens :
+             LET act == ActionOf(st, tok, cfg) IN
              /\ args' = Append(args, tok)
-             /\ roles' = Append(roles, ActionOf(st, tok, cfg))
-             /\ st' = Step(st, tok, specs, cfg, "word")
+             /\ roles' = Append(roles, act)
+             /\ st' = Do(act, st, tok, specs, cfg, V0)
              /\ prev' = st
         /\ UNCHANGED <<cfg, sn>>
 
@@ -77,7 +78,7 @@ SpecsOK == WellFormedSpecs(specs)
 OneAction == \A tok \in Pool \cup ExtraPool : Cardinality({act \in Actions : Guard(act, st, tok, cfg)}) = 1
 
 \* the fold used by the judges is the machine
-ScanAgrees == st = Scan(args, specs, cfg, "word")
+ScanAgrees == st = Scan(args, specs, cfg, V0)
 
 NonOptRoles == {"NonOptAfter", "Word", "DDNoBit"}
 RECURSIVE PickFrom(_, _, _)
@@ -107,8 +108,8 @@ Accounting ==
   /\ Len(st.rest) = RoleCount("NonOptAfter") + RoleCount("Word") + RoleCount("DDNoBit")
   /\ RoleCount("TakeArg") + (IF st.pend # <<>> THEN 1 ELSE 0)
        = Cardinality({i \in 1..Len(roles) : roles[i] \in {"Long", "Short"}
-                        /\ LET r == IF roles[i] = "Short" THEN ShortTok(Drop(args[i], 1), specs)
-                                    ELSE LongTok(IF HasPrefix(args[i], DD) THEN Drop(args[i], 2) ELSE Drop(args[i], 1), specs)
+                        /\ LET r == IF roles[i] = "Short" THEN ShortTok(Drop(args[i], 1), specs, V0)
+                                    ELSE LongTok(IF HasPrefix(args[i], DD) THEN Drop(args[i], 2) ELSE Drop(args[i], 1), specs, V0)
                            IN r.need})
   /\ RoleCount("Terminator") <= 1
 
@@ -118,7 +119,7 @@ DropWords(s, r, i) == IF i > Len(s) THEN <<>>
                       ELSE IF r[i] \in {"Word", "DDNoBit"} THEN DropWords(s, r, i + 1)
                       ELSE <<s[i]>> \o DropWords(s, r, i + 1)
 GNUPermutation == ~cfg.bsd =>
-  LET t == Scan(DropWords(args, roles, 1), specs, cfg, "word")
+  LET t == Scan(DropWords(args, roles, 1), specs, cfg, V0)
   IN  t.opts = st.opts /\ t.pend = st.pend /\ t.stop = st.stop
 
 \* BSD: the non-option arguments are a suffix of the list (minus the terminator)
@@ -129,9 +130,11 @@ BSDSuffix == (cfg.bsd /\ st.stop) =>
 
 \* Complete reads all but the last element exactly as Parse does
 CompleteIsParse == Len(args) >= 1 =>
-  LET c == Complete(args, specs, cfg, "word")
-      p == Parse(Front(args), specs, cfg, "word")
-  IN  c.opts = p.opts /\ c.rest = p.rest /\ prev = Scan(Front(args), specs, cfg, "word")
+  /\ prev = Scan(Front(args), specs, cfg, V0)
+  /\ \A v \in {w \in AllVariants : w.unk = "arg"} :
+       LET c == Complete(args, specs, cfg, v)
+           p == Parse(Front(args), specs, cfg, v)
+       IN  c.opts = p.opts /\ c.rest = p.rest
 
 (* ---------------- generator (G) ----------------
    Compact JSON (TLC's output channel is the bottleneck):
@@ -139,27 +142,26 @@ CompleteIsParse == Len(args) >= 1 =>
      parse   = [opts, rest, err, unspec]
      comp    = [opts, extra, rest, ctxType, ctxOpt (<<>> or <<option>>), ctxText, unspec]
    Line: {"g": cfg bits dd+2*bsd+4*lo, "n": spec set number, "a": args, "p": parse,
-          "q": <<>> or <<parse under variant "long">> when it differs, "c": <<>> or <<comp>>,
-          "d": <<>> or <<comp under variant "long">> when it differs,
+          "q": the other accepted parses (variants of Unspecified (2)-(4)), "c": <<>> or <<comp>>,
+          "d": the other accepted comps,
           "e": <<>> or <<CompleteGetoptObs>> (GNU configuration only, when the completion is specified)}
-   Spec sets are printed once (from the states with the empty list) as {"n":.., "specs":..}. *)
+   Spec sets are printed (from the states with the empty list) as {"n":.., "specs":.., "pool": size}. *)
 B2I(v) == IF v THEN 1 ELSE 0
 OptT(o) == <<o.spec, o.long, o.name, o.arg>>
 OptsT(os) == [i \in 1..Len(os) |-> OptT(os[i])]
 ParseT(r) == <<OptsT(r.opts), r.rest, r.err, r.unspec>>
 CompT(c) == <<OptsT(c.opts), OptsT(c.extra), c.rest, c.ctx.type, OptsT(c.ctx.opt), c.ctx.text, c.unspec>>
 EmitThis == PoolSel \in {"full", "extra"} \/ Len(args) = MaxLen
-HasDD == \E i \in 1..Len(args) : args[i] = DD
-Emit == /\ (args = <<>>) => PrintT(ToJson([n |-> sn, specs |-> specs]))
+Emit == /\ (args = <<>>) => PrintT(ToJson([n |-> sn, specs |-> specs, pool |-> Cardinality(Tokens)]))
         /\ EmitThis =>
              LET p  == ParseT(ParseOf(st))
-                 q  == IF HasDD /\ ~cfg.dd THEN ParseT(Parse(args, specs, cfg, "long")) ELSE p
-                 c  == IF args = <<>> THEN <<>> ELSE <<CompT(CompleteOf(prev, args[Len(args)], specs, cfg))>>
-                 d  == IF args # <<>> /\ HasDD /\ ~cfg.dd THEN <<CompT(Complete(args, specs, cfg, "long"))>> ELSE c
-                 cc == CompleteOf(prev, args[Len(args)], specs, cfg)
-                 e  == IF args # <<>> /\ cfg = [dd |-> TRUE, bsd |-> FALSE, lo |-> FALSE] /\ ~cc.unspec
-                       THEN <<CompleteGetoptObs(cc, specs)>> ELSE <<>>
+                 qs == {ParseT(r) : r \in ParseResultsOf(st, args, specs, cfg)} \ {p}
+                 cr == IF args = <<>> THEN {} ELSE CompleteResultsOf(prev, args, specs, cfg)
+                 c0 == IF args = <<>> THEN <<>> ELSE <<CompT(CompleteOf(prev, args[Len(args)], specs, cfg, V0))>>
+                 ds == {CompT(r) : r \in cr} \ (IF args = <<>> THEN {} ELSE {c0[1]})
+                 e  == IF Cardinality(cr) = 1 /\ cfg = [dd |-> TRUE, bsd |-> FALSE, lo |-> FALSE]
+                          /\ \A r \in cr : ~r.unspec
+                       THEN <<CompleteGetoptObs(CHOOSE r \in cr : TRUE, specs)>> ELSE <<>>
              IN  PrintT(ToJson([g |-> B2I(cfg.dd) + 2 * B2I(cfg.bsd) + 4 * B2I(cfg.lo), n |-> sn, a |-> args,
-                                p |-> p, q |-> IF q = p THEN <<>> ELSE <<q>>,
-                                c |-> c, d |-> IF d = c THEN <<>> ELSE d, e |-> e]))
+                                p |-> p, q |-> qs, c |-> c0, d |-> ds, e |-> e]))
 =============================================================================
